@@ -117,10 +117,17 @@ def check(ctx):
         ts = ctx.one_call(tb, "core::bool::<impl bool>::then_some", "bool::then_some")
         ctx.arg_origin("3.some-only-if-valid", ts, 0, f"call:{BH}::validate_transactions", depth=0)
         ctx.flows("3.result-is-guarded-option", ts, to_return=True)
-        for ver in ("v1::BlockHeaderV1",):
+        vers = ["v1::BlockHeaderV1"]
+        if ctx.config == "fault-proving":
+            vers.append("v2::BlockHeaderV2")
+        for ver in vers:
+            sfx = "" if ver.startswith("v1") else "-v2"
             b = F.unit(f"{HDR}::{ver}::validate_transactions").root
+            nc = ctx.narrowing_casts(b)
+            ctx.expect_sites(f"3.count-compared-untruncated{sfx}", [f"line {s.get('line')}: {src} as {dst}" for _, s, src, dst in nc], exactly=0,
+                             what="value-truncating integer cast in validate_transactions (the length must be compared at full width)")
             g = ctx.one_call(b, f"{HDR}::generate_txns_root")
-            ctx.arg_origin("3.root-of-given-transactions", g, 0, "param:2", depth=0)
+            ctx.arg_origin(f"3.root-of-given-transactions{sfx}", g, 0, "param:2", depth=0)
             eqs = ctx.rel_tests(b, "Eq") or []
             cmps = [c for c in b.calls if c.bb in b.live and c.path in CMP_CALLS] 
             binops = [s for bb, j, s in b.stmts() if bb in b.live and s["k"] == "assign" and s["rv"]["k"] == "bin" and s["rv"]["op"] == "Eq"]
@@ -129,12 +136,12 @@ def check(ctx):
                            atom_match(o.atoms(c.args[0]) | o.atoms(c.args[1]), "field:transactions_root") for c in cmps)
             cnt_cmp = any(atom_match(o.atoms(s["rv"]["a"]) | o.atoms(s["rv"]["b"]), "call:[T]::len") and
                           atom_match(o.atoms(s["rv"]["a"]) | o.atoms(s["rv"]["b"]), "field:transactions_count") for s in binops)
-            ctx.add("3.root-compared", "PROV", root_cmp, "regenerated root == header.transactions_root", sites=[c.where() for c in cmps], site_key="root")
-            ctx.add("3.count-compared", "PROV", cnt_cmp, "transactions.len() == header.transactions_count", sites=[str(s.get("line")) for s in binops], site_key="count")
+            ctx.add(f"3.root-compared{sfx}", "PROV", root_cmp, "regenerated root == header.transactions_root", sites=[c.where() for c in cmps], site_key="root")
+            ctx.add(f"3.count-compared{sfx}", "PROV", cnt_cmp, "transactions.len() == header.transactions_count", sites=[str(s.get("line")) for s in binops], site_key="count")
             trues = b.const_return_blocks(1)
             # `a && b`: the result is true only past both tests
             both = ctx.find_tests(b, lambda t, orig: (not t[4]) if t[0] == "cmp" and t[1] == "Eq" else None)
-            ctx.expect_sites("3.two-conditions", [f"bb{sw.bb}" for sw, _ in both], at_least=1, what="root test guarding the count test (&&)")
+            ctx.expect_sites(f"3.two-conditions{sfx}", [f"bb{sw.bb}" for sw, _ in both], at_least=1, what="root test guarding the count test (&&)")
         gb = ctx.body_with(f"{HDR}::generate_txns_root", "fuel_merkle::binary::root_calculator::MerkleRootCalculator::push")
         push = ctx.one_call(gb, "fuel_merkle::binary::root_calculator::MerkleRootCalculator::push")
         nxt = ctx.one_call(gb, "core::iter::traits::iterator::Iterator::next")
@@ -146,16 +153,19 @@ def check(ctx):
         ctx.expect_sites("3.leaf-is-transaction-bytes", tobytes, exactly=1, what="tx.to_bytes() as the leaf")
 
     with ctx.clause("4.header-hash-covers-all-fields"):
-        for fn, adt, gen in ((f"{HDR}::ConsensusHeader::hash", f"{HDR}::ConsensusHeader", f"{HDR}::GeneratedConsensusFields"),
-                             (f"{HDR}::ApplicationHeader::hash", f"{HDR}::ApplicationHeader", f"{HDR}::v1::GeneratedApplicationFieldsV1")):
-            b = F.unit(fn).root
+        table = [(f"{HDR}::ConsensusHeader::hash", f"{HDR}::ConsensusHeader", f"{HDR}::GeneratedConsensusFields", ""),
+                 (f"{HDR}::ApplicationHeader::hash", f"{HDR}::ApplicationHeader", f"{HDR}::v1::GeneratedApplicationFieldsV1", "")]
+        if ctx.config == "fault-proving":
+            table.append((f"{HDR}::ApplicationHeader::hash", f"{HDR}::ApplicationHeader", f"{HDR}::v2::GeneratedApplicationFieldsV2", "-v2"))
+        for fn, adt, gen, sfx in table:
+            b = F.unit(fn, impl_self=gen.split("::")[-1]).root
             want = {f["n"] for f in F.adt(adt)["variants"][0]["fields"] if f["n"] != "generated"} | {f["n"] for f in F.adt(gen)["variants"][0]["fields"]}
             got = set()
             o = Origins(b, 2)
             ins = b.calls_to("fuel_crypto::hasher::Hasher::input")
             for c in ins:
                 got |= {a[1] for a in o.atoms(c.args[1]) if a[0] == "field" and "." not in str(a[1])}
-            short = fn.split("::")[-2]
+            short = fn.split("::")[-2] + sfx
             ctx.add(f"4.{short}-all-fields-hashed", "FIELDCOV", want <= got, f"{short}::hash feeds {sorted(want & got)} of {sorted(want)} into the hasher" +
                     (f"; missing {sorted(want - got)}" if want - got else ""), sites=[c.where() for c in ins], site_key=short)
             ctx.add(f"4.{short}-one-input-per-field", "COUNT", len(ins) == len(want), f"{len(ins)} hasher inputs for {len(want)} fields", sites=[str(len(ins))], site_key=short + ":n")
